@@ -69,7 +69,7 @@ def analyse(ctx):
         if init is None:
             continue
         t = qtype(d)
-        if _mentions_decl(init, map_ids, G, u):
+        if _mentions_decl(init, map_ids | cachederived_ids, G, u):      # (locals are visited in source order: transitive)
             cachederived_ids.add(i)
             if t.rstrip().endswith('&'):
                 x = peel(init)
@@ -77,6 +77,13 @@ def analyse(ctx):
                     c = callee(x)
                     if c and c[0] == 'fn' and c[1].get('name') == 'operator[]':
                         slot_ids.add(i)
+                elif x.get('kind') == 'CallExpr' and callee(x) and callee(x)[0] == 'fn' and callee(x)[1].get('_qn'):
+                    # a helper that hands back the slot of the name (insert-if-absent inside it)
+                    from .c20 import cache_helpers
+                    H = cache_helpers(G)
+                    for tgk in G.resolve_decl(callee(x)[1]):
+                        if tgk in H and H[tgk]['returns_cache'] and 'write' in H[tgk]['kinds']:
+                            slot_ids.add(i)
         if 'unique_ptr' in (dtype(d) or t) or any(x.get('kind') == 'CXXNewExpr' for x in walk(init)):
             if not _mentions_decl(init, map_ids, G, u):
                 private_ids.add(i)
@@ -209,9 +216,15 @@ def analyse(ctx):
                                         valkey=keys.key(val)))
 
     # a pointer handed back by a cache helper's lookup (null = absent)
+    def _strip(e):
+        x = peel(e)
+        while x is not None and x.get('kind') in ('CXXConstructExpr', 'MaterializeTemporaryExpr', 'CXXBindTemporaryExpr', 'ExprWithCleanups') \
+                and len([a for a in kids(x) if a.get('kind') != 'CXXDefaultArgExpr']) == 1:
+            x = peel([a for a in kids(x) if a.get('kind') != 'CXXDefaultArgExpr'][0])
+        return x
     ptrkeys = set('%s#%s' % (locs[i].get('name'), i) for i in cachederived_ids
-                  if i not in slot_ids and qtype(locs[i]).rstrip().endswith('*') and _init(locs[i]) is not None
-                  and peel(_init(locs[i])).get('kind') == 'CallExpr')
+                  if i not in slot_ids and _init(locs[i]) is not None
+                  and _strip(_init(locs[i])).get('kind') == 'CallExpr')
     # ---- hit edges: cond edges that establish  itr != map.end()  (or count()/contains())
     hit_edges = []
     for n in g.live:
@@ -221,8 +234,9 @@ def analyse(ctx):
                     txt = a + ' ' + b
                     if op == '!=' and any(mk in txt for mk in mapkeys) and '.end()' in txt:
                         hit_edges.append((n, lab))
-                    elif op == '!=' and 'null' in (a, b) and (a if b == 'null' else b) in ptrkeys:
-                        hit_edges.append((n, lab))
+                    elif op == '!=' and ('null' in (a, b) or 'n:0' in (a, b)) and \
+                            re.sub(r'(\.\w+)+$', '', (a if b in ('null', 'n:0') else b)) in ptrkeys:
+                        hit_edges.append((n, lab))       # the result of a helper's lookup (or a member of it) is present
     site_nodes = [sn for s in sites for sn in g.nodes_for(s)]
     hit_edges = [e for i, e in enumerate(hit_edges) if not any(e[0] is p[0] and e[1] == p[1] for p in hit_edges[:i])]
     hits = []
